@@ -154,6 +154,17 @@ example : (run St.init (multi ++ [.finalize 1, .deliverP2O])).tbl 1 = none
     ∧ (run St.init (multi ++ [.finalize 1, .deliverP2O])).tbl 2 = some 0 := by
   decide
 
+/-- a reply that arrives for an expired `AsyncResult` (objects 1, 2 and 1 again, nested): it is unboxed all the same —
+the references are counted — the value is dropped, the proxies die at once (2 before 1: a tuple lets go of its items
+from the last to the first), the release notices flow, and the owner's table is empty again -/
+def expired : List AOp := [.fetch [1, 2, 1], .deliverP2O, .expire 0, .deliverO2P]
+
+example : (appRun App.init expired).s.tbl 1 = some 1 ∧ (appRun App.init expired).s.tbl 2 = some 0
+    ∧ (appRun App.init expired).s.px 1 = none ∧ (appRun App.init expired).s.p2o = [.del 2 1, .del 1 2]
+    ∧ (appRun App.init expired).results = [] ∧ (appRun App.init expired).waiters = [] := by decide
+example : (appRun App.init (expired ++ [.deliverP2O, .deliverP2O])).s.tbl 1 = none
+    ∧ (appRun App.init (expired ++ [.deliverP2O, .deliverP2O])).s.tbl 2 = none := by decide
+
 /-- what a wrong count would do: were a release of 1 to arrive for an absent key the machine answers KeyError — the
 outcome `never_keyError` excludes for real histories -/
 example : (step { St.init with p2o := [.del 3 1] } .deliverP2O).1 = .keyError := by decide
